@@ -107,7 +107,8 @@ def run(chk):
                   "within each shared symbol (40 digits), helicity intensity = canonical intensity at random angles, relative sign of chains "
                   "sharing a symbol = product of eta over the reversed nodes, CG reflection exactly for all j<=3; HISTORIES: every helicity reaction "
                   "of the corpus (incl. the same resonance twice, chic0_omegaomega) on ONE builder walked through naming-flag settings with "
-                  "formulate() after each step, ending in the standard flags, sign check on every model formulated on the way")
+                  "formulate() after each step (sharing first / no sharing first / random; canonical builders with all three flags), sign check on "
+                  "every model formulated on the way and structural equality with the model of a fresh builder at the same flags")
     chk.cov["input_distribution"] = sdoc.get("kinds", {})
     for f in sdoc["failures"]:
         chk.violation(f["signature"], f["what"], {"case": f["case"], "search": "search_C03.py"}, True)
